@@ -1,30 +1,77 @@
-(* C04 — Splitting nested containers visits every inner element. *)
+(* C04 — Splitting nested containers visits every inner element.
+   Model/Nested.v follows pydra/engine/state.py after the repair of finding F04 (input_shape falls back
+   to the flattened element count when the nesting is not rectangular). *)
 From Pydra Require Import Base.Prelude Model.Nested Spec.Nested Proofs.Nested.
 Local Open Scope nat_scope.
 
-(* the property at full strength: a one-field splitter over any list value, any container dimension >= 1 *)
+(* the property at full strength: a one-field splitter over any list value — any depth, any inner
+   lengths, regular or ragged — and any container dimension >= 1 runs exactly the elements at that depth *)
 Definition C04_full_statement : Prop :=
   forall (n : nat) (l : list value), 1 <= n -> single_ok n (Node l) (split1 (Some n) l).
 
-Theorem C04_refuted : ~ C04_full_statement.
-Proof. exact single_refuted. Qed.
-Print Assumptions C04_refuted.
+Theorem C04_full : C04_full_statement.
+Proof. exact single_full. Qed.
+Print Assumptions C04_full.
 
-Theorem C04_rect :
-  forall (n : nat) (l : list value),
-    1 <= n -> rectangular n (Node l) -> split1 (Some n) l = Jobs (elements_at_depth n (Node l)).
-Proof. exact split1_rect. Qed.
-Print Assumptions C04_rect.
+(* same, including the default (no container_ndim entry = container dimension 1) *)
+Theorem C04_full_default :
+  forall (cd : option nat) (l : list value),
+    1 <= ndim_shape cd -> split1 cd l = Jobs (elements_at_depth (ndim_shape cd) (Node l)).
+Proof. exact split1_full. Qed.
+Print Assumptions C04_full_default.
 
+(* the sentence that failed on ragged input before the repair: the index range covers flatten's elements *)
 Theorem C04_count :
-  forall (n : nat) (l : list value),
-    split1 (Some n) l = Jobs (elements_at_depth n (Node l)) <->
-    prod (input_shape l n) = List.length (flatten n l).
-Proof. exact split1_iff_count. Qed.
+  forall (n : nat) (l : list value), 1 <= n -> prod (input_shape l n) = List.length (flatten n l).
+Proof. exact prod_input_shape. Qed.
 Print Assumptions C04_count.
 
+(* on rectangular values the shape is the dimension vector (what inner splitters compare) *)
 Theorem C04_shape_rect :
   forall (n : nat) (l : list value),
     1 <= n -> rectangular n (Node l) -> input_shape l n = dims n (Node l).
 Proof. exact input_shape_rect. Qed.
 Print Assumptions C04_shape_rect.
+
+(* as an operand of an outer splitter [x, y] (either operand nested, each with its own dimension) *)
+Theorem C04_outer :
+  forall (cdx : option nat) (x : list value) (cdy : option nat) (y : list value),
+    1 <= ndim_shape cdx -> 1 <= ndim_shape cdy ->
+    outer_ok (ndim_shape cdx) (Node x) (ndim_shape cdy) (Node y) (split2 Outer cdx x cdy y).
+Proof. exact split2_outer. Qed.
+Print Assumptions C04_outer.
+
+(* as an operand of an inner splitter (x, y): all elements paired by position, or rejected for unequal
+   shapes — never an IndexError, never a partial pairing, and never rejected when both are rectangular
+   with equal dimensions *)
+Theorem C04_inner :
+  forall (cdx : option nat) (x : list value) (cdy : option nat) (y : list value),
+    1 <= ndim_shape cdx -> 1 <= ndim_shape cdy ->
+    inner_ok (ndim_shape cdx) (Node x) (ndim_shape cdy) (Node y) (split2 Inner cdx x cdy y).
+Proof. exact split2_inner. Qed.
+Print Assumptions C04_inner.
+
+Theorem C04_inner_rect :
+  forall (cdx : option nat) (x : list value) (cdy : option nat) (y : list value),
+    1 <= ndim_shape cdx -> 1 <= ndim_shape cdy ->
+    rectangular (ndim_shape cdx) (Node x) -> rectangular (ndim_shape cdy) (Node y) ->
+    dims (ndim_shape cdx) (Node x) = dims (ndim_shape cdy) (Node y) ->
+    split2 Inner cdx x cdy y =
+    Jobs (combine (elements_at_depth (ndim_shape cdx) (Node x)) (elements_at_depth (ndim_shape cdy) (Node y))).
+Proof. exact split2_inner_rect. Qed.
+Print Assumptions C04_inner_rect.
+
+(* the boolean checks the driver evaluates on every observed case decide the Prop specs above *)
+Theorem C04_exec_spec_sound :
+  (forall n v o, single_okb n v o = true <-> single_ok n v o) /\
+  (forall nx x ny y o, outer_okb nx x ny y o = true <-> outer_ok nx x ny y o) /\
+  (forall nx x ny y o, inner_okb nx x ny y o = true <-> inner_ok nx x ny y o).
+Proof. exact (conj single_okb_spec (conj outer_okb_spec inner_okb_spec)). Qed.
+Print Assumptions C04_exec_spec_sound.
+
+(* sanity of the recursive definition of "rectangular": every level above n is uniform *)
+Theorem C04_rect_levels :
+  forall (n : nat) (v : value) (k : nat),
+    rectangular n v -> k < n -> level_uniform (elements_at_depth k v).
+Proof. exact rect_level_uniform. Qed.
+Print Assumptions C04_rect_levels.
